@@ -55,7 +55,7 @@ func Prop() *core.Prop {
 		"reply_split_call_returned_on_cancel",
 		// consumers that close an iterator before its end (tracked history query: also while a result is in flight)
 		// the application closes an IBB stream and that Close fails; the peer goes on naming the stream
-		"ibb_local_close_failed", "ibb_packets_answered_after_failed_local_close",
+		"ibb_local_close_failed", "ibb_packets_answered_after_failed_local_close", "ibb_deadline_armed_with_data_buffered",
 		// a stream opened to a listener nobody accepts from, released by the application closing the listener
 		"ibb_second_listener", "stanza_left_waiting_for_the_application", "ibb_unaccepting_listener_closed",
 		// error payloads with several <text/> children (empty first, filled later), shuffled children, 0 or several conditions
